@@ -100,7 +100,15 @@ def r18_1(ctx):
                         ads_ = find_all(e, lambda y: y[0] == "call" and isinstance(y[1], str) and re.search(ADAPTERS, y[1]))
                         probs.append("`values` is `%s`, not matched_values.into_iter().map(f).collect()%s" % (
                             fmt(e, 5), (" (uses the adapter `%s`: element order / multiplicity is not preserved)" % ads_[0][1].split("::")[-1]) if ads_ else ""))
-        if v in ("PushFront", "PushBack", "Insert", "Set") and len(fcalls) != 1:
+        if v in ("PushFront", "PushBack", "Insert", "Set"):
+            fblks = {blk for blk, _ in fcalls}
+            ins_, outs_ = forward_states(b, 0, lambda blk, st: [min(2, st + (1 if blk in fblks else 0))], start=arms[v])
+            per_path = set()
+            for rb in b.return_blocks():
+                per_path |= outs_.get(rb, set())
+            if per_path and per_path != {1}:
+                probs.append("f is called %s times on some path through the arm (must be exactly once on every path)" % sorted(per_path))
+        if v in ("PushFront", "PushBack", "Insert", "Set") and len(fcalls) < 1:
             probs.append("f is called %d times in the arm (must be exactly once)" % len(fcalls))
         if v in ("Clear", "PopFront", "PopBack", "Remove", "Truncate") and fcalls:
             probs.append("f is called in an arm that carries no element")
